@@ -282,6 +282,17 @@ func jsonFamily(run *report.Run, mode string) {
 // undiscriminated one.
 func jsonDiscInfo(s *spec.Spec, pl *drv.JSONPayload) {
 	pl.DiscProp, pl.VariantKeys, pl.Ambiguous = discInfo(s)
+	for _, ns := range s.Comp.Schemas {
+		if ns.Name == "Top" && ns.Schema != nil && len(ns.Schema.OneOf) > 0 && ns.Schema.Disc == nil {
+			for i, v := range ns.Schema.OneOf {
+				if v.Ref != "" {
+					pl.OneOfOrder = append(pl.OneOfOrder, v.Ref)
+				} else {
+					pl.OneOfOrder = append(pl.OneOfOrder, fmt.Sprintf("OneOf%d", i))
+				}
+			}
+		}
+	}
 }
 
 func discInfo(s *spec.Spec) (discProp string, variantKeys [][]string, ambiguous bool) {
